@@ -474,15 +474,11 @@ Definition opq_update (fd : fdesc) (vs : list value) (c : ocell) : ocell :=
 Definition opq_ops : cellops ocell :=
   mkCellOps ocell OCZero opq_vals opq_has opq_set opq_clear opq_mutable opq_touch opq_update.
 
-(* ---------------------------------------------------------------- finding FWE2
-   makeOneofInfoOpaque: WhichOneof of the SYNTHETIC oneof of a proto3-optional field reads the
-   presence bit of the field.  Non-lazy message fields (class KMsgPtr) never set that bit
-   (filedesc.UsePresenceForField is false for them), so the bit is constantly clear. *)
-Definition opq_which_synthetic (fd : fdesc) (c : ocell) : bool :=
-  match opq_class fd with
-  | KMsgPtr | KMsgListPtr => false          (* the presence bit of a field that does not use the bitmap *)
-  | _ => opq_has fd c
-  end.
+(* ---------------------------------------------------------------- synthetic oneofs
+   makeOneofInfoOpaque (after the repair of finding FWE2, commit 6a7663d): WhichOneof of the
+   SYNTHETIC oneof of a proto3-optional field asks the field itself: mi.fields[num].has(p).
+   (Before the repair it read the presence bit of the field, which non-lazy message fields never set.) *)
+Definition opq_which_synthetic (fd : fdesc) (c : ocell) : bool := opq_has fd c.
 
 (* ---------------------------------------------------------------- running the concrete machines
    (used by the model driver: the concrete machines are run next to the contract model) *)
